@@ -85,11 +85,21 @@ def relayout(t, kind):
     return t
 
 
+SHARED = {}
+
+
 def run(call):
     fn = call["fn"]
     t = from_bits(call["bits"], call["shape"], call["dtype"]) if "bits" in call else None
     if t is not None and call.get("layout"):
         t = relayout(t, call["layout"])
+    if t is not None and call.get("reuse_key") is not None:
+        # the SAME tensor object is handed to successive calls (as a user quantizing one weight with several configurations does);
+        # the driver compares with a second run of the same calls on fresh tensors
+        t = SHARED.setdefault(call["reuse_key"], t)
+        return run(dict({k: v for k, v in call.items() if k not in ("reuse_key", "layout")}, _tensor=t))
+    if "_tensor" in call:
+        t = call["_tensor"]
     before = t.clone() if t is not None else None
     if fn == "quantize_weight":
         q = quantize_weight(t, QT[call["qtype"]], call["axis"], call.get("group_size"), OPT[call.get("optimizer")])
@@ -163,6 +173,35 @@ def run(call):
         o2, of = observe(q2), observe(qf)
         r = {"same": all(o2[k] == of[k] for k in ("codes", "scale", "zp", "deq")), "after_update": {k: o2[k] for k in ("scale",)}, "fresh": {k: of[k] for k in ("scale",)}}
         t = None
+    elif fn == "huge":
+        # a tensor of more than 2**27 elements (an embedding / lm_head sized weight), per-axis scales: C01's inequality checked
+        # block by block against a float64 oracle (the exact-rational audit is too slow at this size)
+        rows, cols = call["rows"], call["cols"]
+        fd = DT[call["dtype"]][0]
+        g = torch.Generator().manual_seed(call["seed"])
+        t = torch.empty(rows, cols, dtype=fd)
+        for r0 in range(0, rows, 256):
+            t[r0:r0 + 256] = (torch.randn(min(256, rows - r0), cols, generator=g) * 3).to(fd)
+        sc = (torch.rand(rows, 1, generator=g) * 0.05 + 0.01).to(fd)
+        q = SymmetricQuantizer.apply(t, QT[call["qtype"]], 0, sc)
+        d = q.dequantize()
+        u = {torch.float32: 2.0**-24, torch.float16: 2.0**-11, torch.bfloat16: 2.0**-8}[fd]
+        bad, first = 0, None
+        for r0 in range(0, rows, 128):
+            x = t[r0:r0 + 128].double()
+            s_ = sc[r0:r0 + 128].double()
+            code = torch.clamp(torch.round(x / s_), -128, 127)
+            best = (s_ * code - x).abs()
+            err = (d[r0:r0 + 128].double() - x).abs()
+            slack = 2 * (u * x.abs() + s_ * 1e-30) + u * (s_ * code).abs() + 2 * u * s_ + 1e-30
+            m = (err > best + slack) | ~torch.isfinite(d[r0:r0 + 128].double())
+            n = int(m.sum())
+            if n and first is None:
+                idx = m.nonzero()[0].tolist()
+                first = {"row": r0 + idx[0], "col": idx[1], "x": float(x[idx[0], idx[1]]), "scale": float(s_[idx[0], 0]), "deq": float(d[r0 + idx[0], idx[1]])}
+            bad += n
+        r = {"bad": bad, "first": first, "numel": rows * cols, "shape_ok": list(q.shape) == [rows, cols] and list(d.shape) == [rows, cols]}
+        t = None
     elif fn == "qtype_table":
         r = {"table": {n: [q.is_floating_point, q.bits, str(q.dtype), (torch.finfo(q.dtype) if q.is_floating_point else torch.iinfo(q.dtype)).min, (torch.finfo(q.dtype) if q.is_floating_point else torch.iinfo(q.dtype)).max] for n, q in QT.items()}}
     else:
@@ -172,9 +211,30 @@ def run(call):
     return r
 
 
+def prelude():
+    """a history before the numeric calls: the library has already been used in this process for its usual flow (quantize a
+    model, calibrate it, freeze it, run it).  Nothing of that may change what quantization computes afterwards (process-wide
+    float modes, caches, registries): every check below is made in this used process."""
+    from optimum.quanto import Calibration, freeze, quantize
+    torch.manual_seed(0)
+    m = torch.nn.Sequential(torch.nn.Linear(8, 8), torch.nn.ReLU(), torch.nn.Linear(8, 4))
+    quantize(m, weights=Q.qint8, activations=Q.qint8)
+    with torch.no_grad(), Calibration():
+        m(torch.randn(2, 8))
+    freeze(m)
+    with torch.no_grad():
+        m(torch.randn(2, 8))
+
+
 def main():
     payload = json.loads(sys.stdin.read())
     out = []
+    if payload.get("prelude", True):
+        try:
+            prelude()
+        except Exception:  # noqa: BLE001
+            # a library whose model flow is broken is another property's matter: the numeric calls are still made and judged
+            pass
     for call in payload["calls"]:
         try:
             r = run(call)
